@@ -797,6 +797,21 @@ def uri_join_keeps_names(ctx: Ctx, rule: str) -> int:
                         if isinstance(tg, ast.Name) and tg.id not in derived and any(isinstance(y, ast.Name) and y.id in derived for y in ast.walk(st.value)):
                             derived.add(tg.id)
                             changed = True
+            # the text of a segment is the whole segment (a Path segment may hold several names: 'a/b')
+            lossy = []
+            for x in ast.walk(loop):
+                if isinstance(x, ast.Attribute) and isinstance(x.value, ast.Name) and x.value.id in lv and x.attr in ("name", "stem", "suffix", "parent", "parts", "anchor", "root", "drive"):
+                    lossy.append(x)
+                elif isinstance(x, ast.Call) and unparse(x.func).split(".")[-1] in ("basename", "dirname", "split", "splitext") and x.args and isinstance(x.args[0], ast.Name) and x.args[0].id in lv:
+                    lossy.append(x)
+            n += 1
+            desc_l = "a segment enters the URI with its whole text (str(segment)), not with a part of it"
+            if lossy:
+                rep.bad(rule, jp.qname, desc_l, jp.loc(lossy[0]), [f"{jp.loc(lossy[0])}: `{unparse(lossy[0], 50)}` keeps one component of the segment: a path segment such as Path('left/result') "
+                        "is joined as 'result'", "the redirect records / data copies of all paths with the same last name share one location: committing '/right/result' switches '/left/result'"],
+                        "segment-part", what="the URI join keeps only a part of a path segment: distinct paths share a location")
+            else:
+                rep.ok(rule, jp.qname, desc_l, jp.loc(loop))
             rets = [r.value.args[0].id for r in jp.own_nodes() if isinstance(r, ast.Return) and isinstance(r.value, ast.Call) and r.value.args and isinstance(r.value.args[0], ast.Name)]
             acc = rets[0] if rets else None
             appends = [st for st in ast.walk(loop) if isinstance(st, ast.Assign) and isinstance(st.targets[0], ast.Name) and st.targets[0].id == acc
